@@ -273,6 +273,15 @@ def exec_f32(case, obs):
         obs.outcome = ("bad-shape",)
         return
     dft_check(obs, S.astype(np.float64), out.astype(np.float64), doses, w, h, px, 1e-5, size_cls(w, h) + ",float32-" + src_kind)
+    if src_kind == "file":
+        # the file it was asked to write holds the filtered stack (x fastest, one section per image)
+        try:
+            pf = mrcfmt.parse("c16_out.mrc")
+            F = np.asarray(pf["data"]).transpose(2, 1, 0)
+            obs.check(F.shape == out.shape and bool(np.allclose(F.astype(np.float64), out.astype(np.float64), rtol=1e-6, atol=1e-6)), SITE, "file-holds-result",
+                      lambda: f"written file shape {F.shape} vs result {out.shape}" + ("" if F.shape != out.shape else f", max difference {float(np.abs(F - out).max()):.3e}"), cls="output-file")
+        except (OSError, mrcfmt.MRCError) as e:
+            obs.fail(SITE, "file-holds-result", f"output file missing or invalid: {e}", cls="output-file")
     obs.outcome = (w, h, s, src_kind, round(float(np.abs(out).sum()), 3))
 
 
@@ -425,7 +434,7 @@ def families(tier, seed):
                expect=("wave-gain", "per-image-dose-pairing", "dc-untouched", "zero-dose-identity", "mean-unchanged", "returned-axis-order", "input-untouched")),
         Family("dft-pairing", pairing, exec_pairing, describe=d_p, expect=("dft-gain", "per-image-dose-pairing", "dc-untouched", "power-never-increases", "zero-dose-identity")),
         Family("algebra", algebra, exec_algebra, describe=d_a, expect=("linearity", "composition", "more-dose-attenuates-more", "power-never-increases", "dose-matters", "zero-dose-identity")),
-        Family("float32-and-files", f32, exec_f32, describe=d_f, expect=("dft-gain", "dc-untouched")),
+        Family("float32-and-files", f32, exec_f32, describe=d_f, expect=("dft-gain", "dc-untouched", "file-holds-result")),
         Family("int16-stacks", f32, exec_int16, describe=d_f, expect=("dft-gain",)),
         Family("dose-text-file", txt, exec_textdose, describe=d_t, expect=()),
         Family("single-image-inputs", single, exec_single, describe=d_s, expect=("dft-gain",)),
